@@ -47,6 +47,7 @@ type d6Info struct {
 	hops     []d6Hop
 	helpers  []*ssa.Call // calls of same-package helpers with file effects
 	setL     *ssa.Call
+	resets   []*ssa.Call // calls that reset the engine's change counter (directly or through a helper)
 	tested   map[*ssa.Call]bool
 	retEvent map[*ssa.Return]*ssa.Call // `return <event call>`
 }
@@ -161,6 +162,9 @@ func (c *d6Ctx) info(fn *ssa.Function, site *ssa.Call) *d6Info {
 		}
 		if n, ok := fieldFuncCall(call); ok && n == "setLatestSnapshotTimeFunc" {
 			inf.setL = call
+		}
+		if resetsChangeCounter(call, 0) {
+			inf.resets = append(inf.resets, call)
 		}
 		f := call.Call.StaticCallee()
 		if f == nil {
@@ -663,6 +667,18 @@ func (c *d6Ctx) report(fn *ssa.Function, site *ssa.Call, entryMust, entryMay wor
 				r.Fail(key, w.InstrPos(ret), "a snapshot attempt that fails here has already replaced the manifest or published the last-save time: a failed attempt does not leave the previous snapshot untouched")
 			}
 		}
+		// (h) the change counter (which arms the automatic snapshot) is cleared only once the snapshot
+		// is published: an attempt that fails after the reset would leave the accumulated writes
+		// forgotten, and no automatic snapshot would follow until a whole new threshold of writes arrived
+		for i, rc := range inf.resets {
+			key := fmt.Sprintf("%s|h:change-count-reset-after-publish#%d", top, i+1)
+			f := world.FactsAt(must, rc, gen, nil)
+			if f&d6MREP != 0 && f&d6SS != 0 {
+				r.OK(key, w.InstrPos(rc), "the change counter is reset only after the state is durable and the manifest replaced")
+			} else {
+				r.Fail(key, w.InstrPos(rc), "the write counter that triggers automatic snapshots is reset before the new snapshot is durable and published: if the attempt fails afterwards (I/O fault while writing the state file or the manifest) the counter stays at zero with nothing saved, the ticker no longer retries, and the accumulated writes are not snapshotted until a whole further threshold of writes has arrived")
+			}
+		}
 		if inf.setL == nil {
 			r.Fail(top+"|d:lastsave-after-publish", w.Pos(fn.Pos()), "TakeSnapshot never publishes the last-save time")
 		} else {
@@ -851,4 +867,30 @@ func pathLeaves(v ssa.Value, depth int, out map[string]bool) {
 	default:
 		out[fmt.Sprintf("%s (%T)", v.Name(), v)] = true
 	}
+}
+
+
+// resetsChangeCounter: the call stores a constant zero into an atomic counter field whose name
+// mentions "change" (changeCount.Store(0)), directly or inside a same-package helper (depth 2).
+func resetsChangeCounter(call *ssa.Call, d int) bool {
+	f := call.Call.StaticCallee()
+	if f == nil {
+		return false
+	}
+	if strings.HasPrefix(f.String(), "(*sync/atomic.") && f.Name() == "Store" && len(call.Call.Args) == 2 {
+		if fa, ok := call.Call.Args[0].(*ssa.FieldAddr); ok && strings.Contains(strings.ToLower(world.FieldName(fa)), "change") {
+			if k, ok := world.ConstInt(call.Call.Args[1]); ok && k == 0 {
+				return true
+			}
+		}
+		return false
+	}
+	if d < 2 && world.InModule(f) && f.Blocks != nil && world.ShortPkg(world.PkgOf(f)) == "internal/snapshot" {
+		for _, c := range world.Calls(f) {
+			if cc, ok := c.(*ssa.Call); ok && resetsChangeCounter(cc, d+1) {
+				return true
+			}
+		}
+	}
+	return false
 }
